@@ -175,7 +175,7 @@ def validate(chk, name, vectors, *, timeout=1500, workers=8):
     def sink(v):
         if isinstance(v, dict) and "fail" in v:
             fails[v["fail"] - 1] = v["why"]
-    res = vkit.tlc("DnsMsgV", cfg, env={"DNSVEC": path}, print_sink=sink, timeout=timeout, workers=workers)
+    res = vkit.tlc("DnsMsgV", cfg, env={"DNSVEC": path, "JAVA_TOOL_OPTIONS": "-Xss64m"}, print_sink=sink, timeout=timeout, workers=workers)
     chk.add_tlc(name, res)
     if res.distinct != len(vectors):
         raise vkit.InfraError("%s: TLC judged %d of %d vectors\n%s" % (name, res.distinct, len(vectors), res.raw[-2000:]))
@@ -200,7 +200,7 @@ def gen_messages(chk, name, consts, *, timeout=900, workers=8):
         if k not in seen:
             seen.add(k)
             out.append(v)
-    res = vkit.tlc("DnsMsgGen", cfg, print_sink=sink, timeout=timeout, workers=workers)
+    res = vkit.tlc("DnsMsgGen", cfg, env={"JAVA_TOOL_OPTIONS": "-Xss64m"}, print_sink=sink, timeout=timeout, workers=workers)
     chk.add_tlc(name, res)
     if not out:
         raise vkit.InfraError("generator %s produced nothing\n%s" % (name, res.raw[-1500:]))
